@@ -242,7 +242,8 @@ def obligations(tier):
     xfl = [("splitUniform", {"step": 2}), ("splitUniform", {"step": 2, "depth": 1}), ("splitEqual", {"size": 1}), ("splitNonUniform", {"k": 2}),
            ("splitUnEqual", {"sizes": [1, 1]}), ("swapRanks", {}), ("flattenRanks", {}), ("flattenRanks", {"style": "pair"}), ("mergeRanks", {"style": "absolute"}),
            ("mergeRanks", {"style": "relative"}), ("flatten_unflatten", {}), ("updateCoords_inc", {}), ("updatePayloads", {"depth": 1}), ("deepcopy", {}),
-           ("split_flatten", {"step": 2}), ("split_flatten", {"step": 1})]
+           ("split_flatten", {"step": 2}), ("split_flatten", {"step": 1}),
+           ("splitUniform", {"step": 2, "depth": 1, "via": "rankid"}), ("splitUniform", {"step": 2, "depth": 1, "via": "both"})]
     if not q:
         xfl += [("splitUniform", {"step": 2, "rel": True}), ("splitUniform", {"step": 2, "pre": 1, "post": 1}), ("truediv", {"parts": 2}), ("floordiv", {"parts": 2}),
                 ("splitEqual", {"size": 2, "depth": 1})]
